@@ -3,9 +3,10 @@ import GqlProofs.Validate.NoPanic
 import GqlProofs.Validate.RuleFuel
 import GqlProofs.Validate.OpEvents
 import GqlProofs.Validate.Witness
+import GqlProofs.Validate.OverlapSafe
 /-
   C02 — validation never crashes and terminates (the part that concerns `validator.Validate`
-  and all rules except OverlappingFieldsCanBeMerged).
+  and the rules; OverlappingFieldsCanBeMerged — the repaired algorithm — is at the end).
 
   The model `validate` has three outcomes: `ok errs`, `panic msg` (a Go run-time panic or explicit
   `panic(...)`, which `Validate` does not recover) and `outOfFuel` (the bounded-recursion device
@@ -119,6 +120,66 @@ theorem C02_validate_default_panics_R2a : validate defaultRules Witness.schema W
     same rule returns normally (no error: `$v` is non-null) -/
 example : validate [valuesOfCorrectType] Witness.schema Witness.docUsed = .ok [] := by decide +kernel
 
+/- ================= OverlappingFieldsCanBeMerged (the repaired algorithm, DESIGN §7 R2d) ================= -/
+
+/-- (a) The fuel that the entry point `overlapRun` (one `findConflictsWithinSelectionSet` call of an
+    observer) hands out is never exhausted: `2·F²+2` nested `findConflict` calls (`F` = field nodes
+    of the selection set and of all fragment definitions), `K+2` frames per (E) chain and `2·K²+2`
+    frames per `check` recursion (`K` = fragment definitions) — for every schema view, document,
+    link state, selection set and every SYMMETRIC `comparedFragmentPairs` (symmetry is an invariant
+    of the rule state: it holds initially and the theorem returns it).  So the recursion of the
+    real code, which has no fuel, is well-founded on every input, cyclic fragments included. -/
+theorem C02_overlap_fuel_suffices (s : SV) (d : QueryDoc) (l : Links) (parent : Option Definition)
+    (sels : Selections) (P : Pairs) (hP : PSym P) :
+    ∃ P' cs, overlapRun s d l parent sels P = some (P', cs) ∧ PSym P' := by
+  obtain ⟨⟨P', cs⟩, h, a⟩ := overlapRun_ok s d l parent sels P hP
+  exact ⟨P', cs, h, a.1⟩
+
+/-- The key argument of (a), isolated: (1) `findConflict` at in-progress set `C` consults
+    `findConflictsBetweenSubSelectionSets` only at `C` extended by the triple of the two fields it
+    compares, and only when that triple is not in `C` (so along the recursion the set strictly
+    grows and stays duplicate-free); (2) a duplicate-free set of `(fieldA, fieldB, exclusive)`
+    triples over `F` field nodes has at most `2·F²` elements.  Hence the depth of the
+    `findConflict` recursion is at most `2·F²`. -/
+theorem C02_overlap_depth_bounded :
+    (∀ (s : SV) (sub sub' : Bool → FInfo → FInfo → Comparing → Pairs → Option (Pairs × List Conflict))
+        (excl0 : Bool) (a b : FInfo) (C : Comparing) (P : Pairs),
+        (∀ excl, (a.key, b.key, excl) ∉ C →
+          sub excl a b ((a.key, b.key, excl) :: C) P = sub' excl a b ((a.key, b.key, excl) :: C) P) →
+        findConflictBody s sub excl0 a b C P = findConflictBody s sub' excl0 a b C P) ∧
+    (∀ (U : Univ) (C : Comparing), C.Nodup → (∀ t ∈ C, t ∈ allTriples (U.map (·.1))) →
+        C.length ≤ 2 * U.length * U.length) :=
+  ⟨findConflictBody_calls_fresh, comparing_length_le⟩
+
+/-- (b) The rule model has no panic outcome: from a symmetric `comparedFragmentPairs` every observer
+    call returns an error list (and a symmetric state); and in ANY state the only non-`ok` outcome
+    the step function can produce at all is the out-of-fuel marker — there is no Go panic site left
+    in the rule (`Schema.Types[...]` is nil-guarded in `doTypesConflict`), so not even `Closed s`
+    is needed. -/
+theorem C02_overlap_no_panic (s : Schema) (d : QueryDoc) (P : Pairs) (e : Event) :
+    (PSym P → ∃ P' errs, overlappingFieldsStep s.view d P e = .ok P' errs ∧ PSym P') ∧
+    (∀ m, overlappingFieldsStep s.view d P e = .panic m → m = overlapOutOfFuel) :=
+  ⟨overlappingFieldsStep_ok s.view d P e, fun m h => overlappingFieldsStep_panic_only_fuel s.view d P e m h⟩
+
+/-- `C02_validate_no_panic_parsed_partial` with OverlappingFieldsCanBeMerged: every rule list drawn
+    from the modelled rules other than ValuesOfCorrectType (+ twin) returns an error list on every
+    schema and every document with parser-produced operation kinds — no panic, no fuel exhaustion. -/
+theorem C02_validate_no_panic_with_overlap_partial (rs : List Rule) (s : Schema) (d : QueryDoc)
+    (hd : ∀ op ∈ d.ops, op.op ∈ parserOpKinds)
+    (h : ∀ r ∈ rs, r ∈ panicFreeRules' ∨ r = knownRootType ∨ r = overlappingFieldsCanBeMerged) :
+    ∃ errs, validate rs s d = .ok errs :=
+  validateV_safe rs s.view d hd fun r hr => (h r hr).imp (panicFreeRules'_neverPanic r) id
+
+/-- non-vacuity: the rule alone, and together with all other panic-free rules, is covered -/
+example (s : Schema) (d : QueryDoc) (hd : ∀ op ∈ d.ops, op.op ∈ parserOpKinds) :
+    ∃ errs, validate (overlappingFieldsCanBeMerged :: knownRootType :: panicFreeRules') s d = .ok errs :=
+  C02_validate_no_panic_with_overlap_partial _ s d hd fun r hr => by
+    rcases List.mem_cons.1 hr with h | hr
+    · exact Or.inr (Or.inr h)
+    · rcases List.mem_cons.1 hr with h | hr
+      · exact Or.inr (Or.inl h)
+      · exact Or.inl hr
+
 #print axioms C02_walk_terminates
 #print axioms C02_validate_fuel_suffices
 #print axioms C02_walk_events_bound
@@ -128,3 +189,7 @@ example : validate [valuesOfCorrectType] Witness.schema Witness.docUsed = .ok []
 #print axioms C02_validate_no_panic_counterexample_R2a
 #print axioms C02_validate_no_panic_counterexample_R2b
 #print axioms C02_validate_default_panics_R2a
+#print axioms C02_overlap_fuel_suffices
+#print axioms C02_overlap_depth_bounded
+#print axioms C02_overlap_no_panic
+#print axioms C02_validate_no_panic_with_overlap_partial
